@@ -33,7 +33,7 @@ func init() {
 		r.Rule = "explicit-state BFS over API histories; a state is the canonical dump of all store tables + clock + model; every transition replays the whole history on a fresh provider and compares each step with the reference model, then introspects every token ever issued"
 		r.Assumptions = []string{"model: a code yields tokens at most once; any later presentation by an authenticated client answers invalid_grant and kills every token-endpoint-issued token of that grant", "tokens issued by the authorization endpoint itself (hybrid) are not descendants of the code"}
 		famSearch(r, specs)
-		overlapPart(r, []string{"code", "code-oidc", "code-pkce"})
+		overlapPart(r, []string{"code", "code-oidc", "code-pkce", "refresh-vs-code-replay"})
 	})
 
 	registerCheck("C04", "model_checking", 150*time.Second, 40*time.Minute, func(r *Run) {
@@ -108,7 +108,11 @@ func init() {
 				}
 			}
 		}
-		r.Bounds = map[string]any{"history_depth": depth, "max_grants": 2, "configs": "hmac x {rt validation on,off} x {hierarchic,wildcard,exact}; jwt x {on,off} x hierarchic",
+		// two introspection validators: the stateless JWT one registered in front of the stateful one
+		specs = append(specs, FamSpec{Prop: "C09", Profile: Profile{JWTAccess: true, RTLifespan: 7200, StatelessJWTIntrospectionFirst: true}, Depth: depth - 1, MaxGrants: 2,
+			Grants:   []Op{{Op: "authz", Client: "A", Flow: "code"}, {Op: "password", Client: "A"}, {Op: "cc", Client: "B"}},
+			RedeemBy: []string{"owner"}, RefreshBy: []string{"owner"}, RevokeBy: []string{"owner"}, Hints: []string{""}, Advances: []int{3700}, C09: true})
+		r.Bounds = map[string]any{"history_depth": depth, "max_grants": 2, "configs": "hmac x {rt validation on,off} x {hierarchic,wildcard,exact}; jwt x {on,off} x hierarchic; jwt with the stateless JWT validator registered in front of the stateful one (one level shallower)",
 			"alphabet": "grant(code, hybrid code+token, password, device, client_credentials, oidc code) redeem refresh(owner|foreign client) revoke advance(3700s); in every reached state: every token and its mutants x hint x required scopes x caller credential"}
 		r.Rule = "explicit-state BFS over API histories; in every reached state every token ever seen (plus mutants) is introspected under the whole hint x scope x caller grid and compared with the model"
 		r.Assumptions = []string{"model liveness: issued, unexpired (1s don't-care window around expiry), not rotated/revoked/killed", "scope coverage judged by an independent reimplementation of the three scope strategies"}
@@ -127,6 +131,10 @@ func overlapPart(r *Run, kinds []string) {
 		r.Exhaustive = false
 	}
 	if r.Bounds != nil {
+		if len(kinds) > 0 && kinds[len(kinds)-1] == "refresh-vs-code-replay" {
+			r.Bounds["overlapping_requests"] = fmt.Sprintf("%v: 2..%d identical token requests on one code, every interleaving of their NewAccessRequest / NewAccessResponse phases; and a refresh validated before / completed after a replay of the code; x {HMAC,JWT} x {plain,transactional store}", kinds[:len(kinds)-1], maxN)
+			return
+		}
 		if len(kinds) > 0 && strings.HasPrefix(kinds[0], "refresh-vs-revoke") {
 			r.Bounds["overlapping_requests"] = "a refresh request validated before and completed after the owner's accepted revocation of the presented refresh token / of the access token issued alongside it, x {HMAC,JWT} x {plain,transactional store}"
 			return
